@@ -267,8 +267,29 @@ func ruleNameAgree(p *Program, r *Reporter) {
 		if b, ok := ps.At(0).Type().Underlying().(*types.Basic); !ok || b.Kind() != types.String {
 			return false
 		}
-		// not the function table
-		return !strings.Contains(f.Name(), "Function")
+		// it (or a method of the store it calls) touches the variable maps —
+		// not the function table, which has accessors of the same shape
+		var touches func(g *ssa.Function, depth int) bool
+		touches = func(g *ssa.Function, depth int) bool {
+			if g == nil || depth > 2 {
+				return false
+			}
+			for _, b := range g.Blocks {
+				for _, ins := range b.Instrs {
+					if fa, ok := ins.(*ssa.FieldAddr); ok {
+						switch fieldKey(fa) {
+						case "environment.Environment.global", "environment.Environment.local":
+							return true
+						}
+					}
+					if cc := callOf(ins); cc != nil && cc.StaticCallee() != nil && cc.StaticCallee().Signature.Recv() != nil && isNamed(deref(cc.StaticCallee().Signature.Recv().Type()), "environment", "Environment") && touches(cc.StaticCallee(), depth+1) {
+						return true
+					}
+				}
+			}
+			return false
+		}
+		return touches(f, 0)
 	}
 	// the machine's own resolver(s): functions of vm that call an accessor with
 	// (a function of) one of their string parameters
